@@ -34,6 +34,8 @@ structure Field where
   ns : Option Str
   /-- first binding-model type among the field's types (`XmlVar.clazz`) -/
   cls : Option ClassId
+  /-- `metadata["wrapper"]` -/
+  wrapper : Option Str := none
   deriving DecidableEq, Repr, Inhabited
 
 structure ClassDef where
@@ -112,6 +114,10 @@ structure Var where
   namespaces : List Str
   kind : Kind
   cls : Option ClassId
+  /-- `XmlVar.wrapper` -/
+  wrapper : Option Str := none
+  /-- `XmlVar.wrapper_qname` -/
+  wrapperQName : Option Str := none
   deriving DecidableEq, Repr
 
 /-- `XmlVarBuilder.resolve_namespaces` -/
@@ -140,7 +146,9 @@ def buildVar (index : Nat) (f : Field) (pns : Option Str) : Var :=
   let nss := resolveNamespaces f.kind f.ns pns
   { index := index, name := f.name, localName := ln,
     qname := qn (defaultNamespace nss) ln, namespaces := nss,
-    kind := if f.cls.isSome then .element else f.kind, cls := f.cls }
+    kind := if f.cls.isSome then .element else f.kind, cls := f.cls,
+    wrapper := f.wrapper,
+    wrapperQName := if truthy f.wrapper then some (qn (defaultNamespace nss) (f.wrapper.getD [])) else none }
 
 /-- `__mro__` without `object`, via the single-base chain (fuel bounds the depth) -/
 def mroAux (U : Universe) : Nat → ClassId → List ClassId
@@ -274,8 +282,13 @@ def pickSubclass (U : Universe) (c : ClassId) : List ClassId → Option ClassId
 
 def localNames (m : Meta) : List Str := m.vars.map (·.localName)
 
-/-- `not names.difference(local_names)` -/
-def namesMatch (names : List Str) (m : Meta) : Bool := names.all fun n => (localNames m).contains n
+/-- the wrapper names of the wrapped fields (a wrapped field is written under its wrapper name) -/
+def wrapperNames (m : Meta) : List Str :=
+  m.vars.filterMap fun v => if truthy v.wrapper then v.wrapper else none
+
+/-- `not names.difference(local_names)`, the local names including the wrapper names (5c6ca3a) -/
+def namesMatch (names : List Str) (m : Meta) : Bool :=
+  names.all fun n => (localNames m ++ wrapperNames m).contains n
 
 /-- `len(local_names - field_names)` (sets) -/
 def fieldDiff (names : List Str) (m : Meta) : Nat :=
